@@ -514,6 +514,49 @@ def xsi_dropped_fields(m, inst):
     return hits
 
 
+def add_subclass(r, m, insts):
+    """genmodels only derives classes in slice F4, next to union fields; give a class that some element field refers
+    to a subclass (own attribute and element, sometimes its own namespace) and turn some instances into instances of
+    it: they are written with xsi:type"""
+    if r.random() >= 0.2:
+        return
+    refs = [f["type"][1] for c in m["classes"] for f in c["fields"]
+            if f["kind"] == "Element" and f.get("type") and f["type"][0] == "class"]
+    refs = [n for n in refs if not G.find_class(m, n).get("twin")
+            and not any(f["kind"] == "Text" for f in G.all_fields(m, G.find_class(m, n)))]
+    if not refs:
+        return
+    base = r.choice(refs)
+    name = "C%d" % (len(m["classes"]) + 10)
+    sub = {"name": name, "base": base, "meta": {}, "fields": [
+        {"name": "g0", "kind": "Attribute", "type": ("prim", "int"), "optional": True},
+        {"name": "g1", "kind": "Element", "type": ("prim", "str"), "optional": True, "list": False}]}
+    if r.random() < 0.4:
+        sub["meta"]["namespace"] = r.choice(["urn:s", "urn:a"])
+    m["classes"].append(sub)
+
+    def conv(x):
+        y = {"__cls__": name, "fields": dict(x["fields"])}
+        y["fields"]["g0"] = {"__p__": "int", "v": r.choice([0, 7, -3])} if r.random() < 0.7 else None
+        y["fields"]["g1"] = {"__p__": "str", "v": r.choice(["sub", "x y"])} if r.random() < 0.5 else None
+        return y
+
+    def walk(x):
+        if isinstance(x, list):
+            return [walk(y) for y in x]
+        if isinstance(x, dict) and "__cls__" in x:
+            x["fields"] = {k: walk(v) for k, v in x["fields"].items()}
+            if x["__cls__"] == base and r.random() < 0.5:
+                return conv(x)
+        return x
+    for i, inst in enumerate(insts):
+        root_cls = inst["__cls__"]
+        new = walk(inst)
+        if new["__cls__"] != root_cls:      # the document root keeps its class
+            new = inst
+        insts[i] = new
+
+
 def span_members(fields):
     """names of the element fields next_value renders through the rolling loop: everything from a field with a
     `sequence` number to the last field with the same number"""
@@ -552,6 +595,29 @@ def seq_token_fields(m, inst):
                 walk(v)
     walk(inst)
     return hits
+
+
+def has_subclass_instance(m, inst):
+    """some class-typed element field holds an instance of another class than the declared one (written with xsi:type)"""
+    def walk(x):
+        if isinstance(x, list):
+            return any(walk(y) for y in x)
+        if isinstance(x, dict) and "__cls__" in x:
+            try:
+                fs = G.all_fields(m, G.find_class(m, x["__cls__"]))
+            except Exception:  # noqa
+                return False
+            for f in fs:
+                v = x["fields"].get(f["name"])
+                tp = f.get("type")
+                if f["kind"] == "Element" and tp and tp[0] == "class":
+                    for y in (v if isinstance(v, list) else [v]):
+                        if isinstance(y, dict) and y.get("__cls__") not in (None, tp[1]):
+                            return True
+                if walk(v):
+                    return True
+        return False
+    return walk(inst)
 
 
 def has_qname_type(tp):
@@ -625,8 +691,10 @@ def classify(m, inst, case, res, vres):
         # open finding C01-F3 is about QName VALUES only; anything else that breaks under a user default namespace
         # (e.g. an attribute written unprefixed: repaired finding C01-F6) is a different class
         last = fields_along(m, inst, path)[-1:]
-        if any(has_qname_type(f.get("type")) for _, f in last) or "<type " in path:
-            return "user-default-namespace"        # a QName value, or the QName value of xsi:type ("C4" for a class without namespace)
+        if any(has_qname_type(f.get("type")) for _, f in last) or "<type " in path or ("exc" in res and has_subclass_instance(m, inst)):
+            # a QName value, or the QName value of xsi:type ("C4" for a class without namespace: the declared class is
+            # built instead and rejects the subclass's own attributes / elements)
+            return "user-default-namespace"
         return "user-default-namespace-attribute"
     if explains("no_ns_map"):
         return "user-prefix-map"
@@ -709,6 +777,7 @@ def run(ck: Check):
         name = f"gm_{ck.seed}_{k}"
         insts = [G.gen_instance(r, m, m["root"]) for _ in range(4)]
         add_recursion(r, m, insts)
+        add_subclass(r, m, insts)
         cases = []
         for i in range(len(insts)):
             for _ in range(3):
